@@ -146,6 +146,10 @@ impl Monitors {
             return;
         }
         self.c02_wire(world, rec, delta);
+        if let (Event::Close, Some(snap)) = (&rec.event, ctx.pre_snapshot) {
+            let c = world.conns.len().saturating_sub(1);
+            if world.conns.get(c).map(|k| k.first_error.is_none()).unwrap_or(false) { self.c06_reservation(world, c, snap, rec.index, "close"); }
+        }
         self.c01(world, rec, delta, ctx);
         self.c04_c06_c10_c09_c17_out(world, rec, delta);
         self.c05_c17_in(world, rec, delta);
@@ -1265,11 +1269,43 @@ impl Monitors {
         let _ = quiescent;
     }
 
+    /// C06: every unresolved operation that is in flight on the current connection must have its
+    /// packet id reserved in the engine's allocation table
+    fn c06_reservation(&mut self, world: &World, c: usize, snapshot: &Snapshot, step: usize, when: &'static str) {
+        if self.blind { return; }
+        let reserved: HashSet<u16> = snapshot.allocated_packet_id_list.iter().copied().collect();
+        for op in world.ops.iter().skip(self.min_unresolved) {
+            if !op.kind.needs_ack() || op.resolved_before(step) { continue; }
+            if let Some(a) = op.appearances.iter().rev().find(|a| a.conn == c && a.kind != WireKind::Pubrel) {
+                self.count("c06.reservations_checked");
+                if !reserved.contains(&a.packet_id) {
+                    let restarted = op.restart_conn == Some(c) && op.appearances.iter().any(|x| x.conn < c);
+                    self.viol("C06", "C06.R5-in-flight-id-not-reserved", sig(&[("kind", op.kind.name().into()), ("restarted_after_lost_session", restarted.to_string()), ("when", when.into())]), step, format!("op {} is in flight with packet id {} but that id is not reserved ({} ids reserved): the allocator may hand it to another operation", op.tag, a.packet_id, reserved.len()));
+                    return;
+                }
+            }
+        }
+    }
+
     /// called by the simulator at quiescence (before the final close) with the live snapshot
     pub fn on_quiescence(&mut self, world: &World, snapshot: &Snapshot, next_service: Option<u64>, now: u64, stop_requested: bool) {
         let c = match world.current { Some(c) => c, None => return };
         let conn = &world.conns[c];
         if conn.connack.is_none() || conn.first_error.is_some() { return; }
+        // C01: an accepted operation that is unresolved but sits in none of the engine's queues or
+        // tables can never be sent or acknowledged any more: it has been silently dropped (only a
+        // reset would ever resolve it).  Independent of how the broker behaves.
+        {
+            self.count("c01.quiescent_structure_checks");
+            let tracked_somewhere = snapshot.user_queue + snapshot.resubmit_queue + snapshot.high_priority_queue + snapshot.pending_publish + snapshot.pending_non_publish + snapshot.pending_write_completion_operations + if snapshot.current_operation.is_some() { 1 } else { 0 };
+            let unresolved: Vec<&OpInfo> = world.ops.iter().filter(|o| !o.resolved()).collect();
+            if tracked_somewhere == 0 && !unresolved.is_empty() {
+                let o = unresolved[0];
+                let was_retransmission = o.live_appearances().any(|a| a.conn < c);
+                self.viol("C01", "C01.R6-silently-dropped", sig(&[("kind", o.kind.name().into()), ("had_been_transmitted_before", was_retransmission.to_string())]), world.steps, format!("op {} ({}) is unresolved but the engine holds it in no queue or table (operations map {}, reserved ids {}): it can never complete", o.tag, o.kind.name(), snapshot.operations, snapshot.allocated_packet_ids));
+            }
+        }
+        self.c06_reservation(world, c, snapshot, world.steps, "quiescence");
         if !self.responsive || stop_requested { return; }
         self.count("c08.quiescent_points");
         // every retained operation must be resolved
